@@ -16,10 +16,14 @@ package mqttproxy
 import (
 	"fmt"
 	"math/rand"
+	"runtime"
+	"strconv"
 	"strings"
+	"sync"
 	"testing"
 	"time"
 
+	"github.com/eclipse/paho.mqtt.golang/packets"
 	"verif.local/kit"
 )
 
@@ -53,6 +57,10 @@ type c16Conn struct {
 	Point int `json:"superseded_teardown_point,omitempty"`
 	// takeover only: "disconnect" (late DISCONNECT packet) or "drop" (device vanished, FIN later)
 	End string `json:"superseded_ends_by,omitempty"`
+	// after the SUBSCRIBE of its own filter the connection UNSUBSCRIBEs the oldest filter of an
+	// earlier connection that the model says its session still holds (nothing if there is none):
+	// the session it leaves behind differs from the one it got by a removal as well
+	Unsub bool `json:"unsubscribes_oldest_inherited_filter,omitempty"`
 }
 
 var c16pointName = []string{"before-connect", "after-connack", "after-subscribe", "after-delivery", "never", "keepalive-deadline"}
@@ -154,6 +162,12 @@ func c16chains() []c16Scn {
 								out = append(out, c16Scn{Kind: "chain", Chain: []c16Conn{{Clean: c0, Next: t01, Point: pt}, {Clean: c1, Next: t12}, {Clean: c2}}})
 							}
 						}
+						if !c0 && !c1 {
+							// both persistent: the middle connection also UNSUBSCRIBEs the first one's filter, so
+							// that the session it leaves behind differs from what the first connection stored by
+							// an addition and a removal (after disconnect/drop its session comes from the storage)
+							out = append(out, c16Scn{Kind: "chain", Chain: []c16Conn{{Clean: c0, Next: t01}, {Clean: c1, Next: t12, Unsub: true}, {Clean: c2}}})
+						}
 					}
 				}
 			}
@@ -169,6 +183,14 @@ func c16chainDraw(rng *rand.Rand, s c16Scn, extend bool) c16Scn {
 		at := rng.Intn(len(ch) + 1)
 		extra := c16Conn{Clean: rng.Intn(2) == 0, Next: []string{"disconnect", "drop", "takeover"}[rng.Intn(3)]}
 		ch = append(ch[:at], append([]c16Conn{extra}, ch[at:]...)...)
+	}
+	if s.Jitter {
+		// in the repeats any later connection may unsubscribe an inherited filter
+		for k := 1; k < len(ch); k++ {
+			if rng.Intn(3) == 0 {
+				ch[k].Unsub = true
+			}
+		}
 	}
 	for k := range ch {
 		ch[k].End = ""
@@ -190,6 +212,26 @@ func c16chainDraw(rng *rand.Rand, s c16Scn, extend bool) c16Scn {
 			ch[k].End = []string{"disconnect", "drop"}[rng.Intn(2)]
 		}
 	}
+	// an UNSUBSCRIBE is kept only where the model says the connection inherits a filter (so that the
+	// history's name, and with it the signature, shows it only where it happens)
+	held := make([]bool, len(ch))
+	for k := range ch {
+		if ch[k].Clean || (k > 0 && ch[k-1].Clean) {
+			for j := range held {
+				held[j] = false // discarded, or left open by the property: not "inherited" for the model
+			}
+		}
+		did := false
+		if ch[k].Unsub {
+			for j := 0; j < k && !did; j++ {
+				if held[j] {
+					held[j], did = false, true
+				}
+			}
+		}
+		ch[k].Unsub = did
+		held[k] = true
+	}
 	s.Chain = ch
 	return s
 }
@@ -204,6 +246,9 @@ func c16chainShape(ch []c16Conn, k int) string {
 	var sb strings.Builder
 	for i := from; i <= k; i++ {
 		sb.WriteString(c16cp(ch[i].Clean))
+		if ch[i].Unsub && i > 0 {
+			sb.WriteString("(unsub)")
+		}
 		if i < k {
 			sb.WriteString("-" + ch[i].Next + "-")
 		}
@@ -218,8 +263,8 @@ func TestVerif_C16_Sessions(t *testing.T) {
 	scns := c16scenarios()
 	nPair := len(scns)
 	scns = append(scns, c16chains()...)
-	r.Rule(fmt.Sprintf("%d scripted schedules for one client id. (a) %d two-connection schedules: {cleanSession old} x {cleanSession new} x {new filter = old filter or not} x {plain reconnect after DISCONNECT / after a silent drop; takeover with the old connection's end (FIN through the relay, or DISCONNECT packet) placed after the new CONNACK / after the new SUBSCRIBE / after the first delivery / never; takeover with the old connection ended by the broker's keep-alive deadline; admin delete; session-delete watch event delayed past the reconnect; predecessor ended BY THE BROKER: its session is deleted through the admin endpoint (delete event delivered and processed, connection closed and deregistered, socket still open so that its read loop lingers), then the new CONNECT (not a takeover for the broker) and the old socket's end (FIN or DISCONNECT packet) placed after the new CONNACK / SUBSCRIBE / first delivery}, a random QoS for the probe on the old filter; after the old teardown has completed a fresh message per filter is published. (b) %d longer session histories (chains): every sequence of three connections {cleanSession}^3 x {ends by DISCONNECT, ends by silent drop, is taken over while open}^2, each connection subscribing a filter of its own; the end of a superseded connection is placed at a drawn point (after the successor's CONNACK / SUBSCRIBE / first judgement / never), and for a taken-over first connection additionally, enumerated, only after the successor's own end (before the next CONNECT) and after the successor's end plus the next connection's SUBSCRIBE; after such a late teardown the stored session of the latest cleanSession=false connection must still hold its subscriptions; in the repeats a fourth connection with drawn parameters is inserted at a drawn position in half of the cases; EVERY connection of a chain is judged (books + one fresh message per filter of the history, PINGRESP barrier) against a model of the property sentence: cleanSession=true discards everything earlier, cleanSession=false keeps what the previous session held and what the connection subscribed itself, filters held by a cleanSession=true predecessor of a cleanSession=false connection are left open. All repeated (quick 3x, thorough 200x) with seeded jitter between the steps; distinct = (schedule, symptoms)", len(scns), nPair, len(scns)-nPair))
-	r.Assume("one client id, keepalive 0 except in the keep-alive schedules, no will; delete-watch events are delivered promptly (right after the teardown that caused them, before the next step) except in the stale-delete-event schedules; old cleanSession=true followed by new cleanSession=false: whether the old subscription comes back is left open (counted, not judged); new cleanSession=true while the superseded connection has not been torn down yet: delivery on the old filter is counted, not judged; predecessor ended by an admin delete: whether a cleanSession=false successor gets the deleted session's filter is left open (counted), the broker's other own closes are not generated (the keep-alive deadline ends the read loop itself so nothing lingers; a failed socket write and the watcher re-sync leave the connection registered, which is the takeover schedule); chains: a connection ends only after every Session.store() hand-over has finished, a superseded connection whose teardown point is 'never' is torn down only after the history has been judged; a discarded filter must stay silent only once every earlier connection has been torn down")
+	r.Rule(fmt.Sprintf("%d scripted schedules for one client id. (a) %d two-connection schedules: {cleanSession old} x {cleanSession new} x {new filter = old filter or not} x {plain reconnect after DISCONNECT / after a silent drop; takeover with the old connection's end (FIN through the relay, or DISCONNECT packet) placed after the new CONNACK / after the new SUBSCRIBE / after the first delivery / never; takeover with the old connection ended by the broker's keep-alive deadline; admin delete; session-delete watch event delayed past the reconnect; predecessor ended BY THE BROKER: its session is deleted through the admin endpoint (delete event delivered and processed, connection closed and deregistered, socket still open so that its read loop lingers), then the new CONNECT (not a takeover for the broker) and the old socket's end (FIN or DISCONNECT packet) placed after the new CONNACK / SUBSCRIBE / first delivery}, a random QoS for the probe on the old filter; after the old teardown has completed a fresh message per filter is published. (b) %d longer session histories (chains): every sequence of three connections {cleanSession}^3 x {ends by DISCONNECT, ends by silent drop, is taken over while open}^2, each connection subscribing a filter of its own; the end of a superseded connection is placed at a drawn point (after the successor's CONNACK / SUBSCRIBE / first judgement / never), and for a taken-over first connection additionally, enumerated, only after the successor's own end (before the next CONNECT) and after the successor's end plus the next connection's SUBSCRIBE; after such a late teardown the stored session of the latest cleanSession=false connection must still hold its subscriptions; additionally, where the first two connections are both cleanSession=false, every such history with the middle connection also UNSUBSCRIBING the first connection's filter after subscribing its own (after a DISCONNECT/drop of the first connection the middle one's session is rebuilt from the stored copy, is changed by an addition and a removal, and is rebuilt from the stored copy again by the third connection, whose expected set differs from what the first connection stored); in the repeats a fourth connection with drawn parameters is inserted at a drawn position in half of the cases and every later connection unsubscribes the oldest inherited filter with probability 1/3; EVERY connection of a chain is judged (books + one fresh message per filter of the history, PINGRESP barrier) against a model of the property sentence: cleanSession=true discards everything earlier, cleanSession=false keeps what the previous session held and what the connection subscribed itself and does not get back what a previous cleanSession=false connection unsubscribed, filters held by a cleanSession=true predecessor of a cleanSession=false connection are left open. All repeated (quick 3x, thorough 200x) with seeded jitter between the steps; distinct = (schedule, symptoms)", len(scns), nPair, len(scns)-nPair))
+	r.Assume("one client id, keepalive 0 except in the keep-alive schedules, no will; delete-watch events are delivered promptly (right after the teardown that caused them, before the next step) except in the stale-delete-event schedules; old cleanSession=true followed by new cleanSession=false: whether the old subscription comes back is left open (counted, not judged); new cleanSession=true while the superseded connection has not been torn down yet: delivery on the old filter is counted, not judged; predecessor ended by an admin delete: whether a cleanSession=false successor gets the deleted session's filter is left open (counted), the broker's other own closes are not generated (the keep-alive deadline ends the read loop itself so nothing lingers; a failed socket write and the watcher re-sync leave the connection registered, which is the takeover schedule); chains: a connection ends only after every Session.store() hand-over has finished or has been PROVEN unable to finish ever (a goroutine created by Session.store still parked in its channel send after a barrier value, sent later through the store loop's channel, has been taken: blocked senders are served FIFO, so it waits on a channel the store loop does not read; no clock involved) - in that case the stored copy is not judged any more, the history simply goes on and the next cleanSession=false reconnect is judged as the property says (signature suffix session-never-persisted-again); an unsubscribed filter must stay silent at later connections only once every earlier connection has been torn down, in the unsubscribing connection itself it is only counted; a superseded connection whose teardown point is 'never' is torn down only after the history has been judged; a discarded filter must stay silent only once every earlier connection has been torn down")
 	reps := r.N(3, 200)
 	n := len(scns) * reps
 	for i := 0; i < n; i++ {
@@ -269,6 +314,14 @@ func TestVerif_C16_Sessions(t *testing.T) {
 	r.Require("chain_superseded_torn_down_after_successors_end", 1)
 	r.Require("chain_superseded_torn_down_after_successors_end_and_next_reconnect", 1)
 	r.Require("chain_stored_session_intact_after_late_superseded_teardown", 1)
+	// chains: a session REBUILT FROM THE STORED COPY (predecessor torn down before the CONNECT) is
+	// changed (own filter subscribed, inherited filter unsubscribed), the connection ends, and the
+	// next cleanSession=false connection, rebuilt from the stored copy again, is judged
+	r.Require("chain_session_rebuilt_from_storage", 1)
+	r.Require("chain_session_rebuilt_from_storage_changed_by_subscribe_and_unsubscribe", 1)
+	r.Require("chain_subscription_made_on_session_rebuilt_from_storage_restored_when_rebuilt_from_storage_again", 1)
+	r.Require("chain_unsubscribed_filter_silent_after_persistent_reconnect", 1)
+	r.Require("chain_filter_unsubscribed_on_session_rebuilt_from_storage_silent_when_rebuilt_from_storage_again", 1)
 }
 
 func c16run(r *kit.Run, rng *rand.Rand, s c16Scn, first bool) {
@@ -289,6 +342,7 @@ func c16run(r *kit.Run, rng *rand.Rand, s c16Scn, first bool) {
 		r.Inconclusive("relay did not start: " + err.Error())
 		return
 	}
+	st := c16newStores(rb)
 	var a, b *c15rigClient
 	var la, lb *c15rigLink
 	oldDown := false
@@ -322,6 +376,9 @@ func c16run(r *kit.Run, rng *rand.Rand, s c16Scn, first bool) {
 		}
 		base := func() map[string]interface{} {
 			m := map[string]interface{}{"scenario": s, "teardown_point": c16pointName[s.Point], "steps": steps, "symptoms": symptoms, "symptom_details": details}
+			if len(st.stuck) > 0 {
+				m["store_hand_overs_proven_stuck_for_ever(goroutine states)"] = st.stuck
+			}
 			if b != nil {
 				m["new_connection_log"] = b.events()
 			}
@@ -398,7 +455,7 @@ func c16run(r *kit.Run, rng *rand.Rand, s c16Scn, first bool) {
 			b.shutdown()
 		}
 		rb.flushDeletes()
-		rb.storesQuiesced()
+		st.settle()
 		relay.close()
 		rb.close()
 	}()
@@ -447,11 +504,18 @@ func c16run(r *kit.Run, rng *rand.Rand, s c16Scn, first bool) {
 		return
 	}
 	r.Count("sanity_delivery_to_old_connection", 1)
-	if !rb.storesQuiesced() {
+	nStuck, settled := st.settle()
+	if !settled {
 		inc("watchdog: session store")
 		return
 	}
-	if !s.OldClean {
+	if nStuck > 0 {
+		// hand-overs that can never complete: "every hand-over has finished" will never be true, so
+		// the stored copy is not judged here; the schedule goes on and the reconnect is judged
+		r.Count("store_hand_over_proven_stuck_for_ever", int64(nStuck))
+		step("old: %d Session.store() hand-over(s) can never complete (parked in a send on a channel the store loop does not read): %v", nStuck, st.stuck)
+	}
+	if !s.OldClean && nStuck == 0 {
 		// The persisted copy must have the subscription once every store hand-over has finished
 		// (it is what a later cleanSession=false reconnect is restored from).  The hand-over is
 		// one goroutine per Session.store() call, so snapshots can be written out of order; this
@@ -735,7 +799,10 @@ func c16run(r *kit.Run, rng *rand.Rand, s c16Scn, first bool) {
 		}
 	}
 	if !dead && !s.NewClean {
-		if rb.storesQuiesced() {
+		if nStuck, settled := st.settle(); settled && nStuck > 0 {
+			r.Count("store_hand_over_proven_stuck_for_ever", int64(nStuck))
+			r.Count("persisted_copy_of_survivor_can_never_catch_up(not judged here: judged by the chains at the next reconnect)", 1)
+		} else if settled {
 			if tp, ok := rb.persistedTopics(cid); !ok {
 				r.Count("persisted_copy_absent_for_persistent_survivor(not judged)", 1)
 			} else if _, has2 := tp[f2]; !has2 {
@@ -803,6 +870,7 @@ func c16runChain(r *kit.Run, rng *rand.Rand, s c16Scn, first bool) {
 		absent = iota
 		present
 		open
+		unsubd // removed from the session by an UNSUBSCRIBE of connection unsubAt[j]
 	)
 	ch := s.Chain
 	n := len(ch)
@@ -823,11 +891,18 @@ func c16runChain(r *kit.Run, rng *rand.Rand, s c16Scn, first bool) {
 	links := make([]*c15rigLink, n)
 	down := make([]bool, n)
 	state := make([]int, n)
+	unsubAt := make([]int, n)
+	restored := make([]bool, n) // connection k's session was rebuilt from the stored copy (no live session, predecessor torn down)
+	stuckSeen := false          // a Session.store() hand-over of this history has been proven unable to complete
+	st := c16newStores(rb)
 	cur := -1
 	full := func() string {
 		var sb strings.Builder
 		for i := range ch {
 			sb.WriteString(c16cp(ch[i].Clean))
+			if ch[i].Unsub && i > 0 {
+				sb.WriteString("(unsub)")
+			}
 			if i < n-1 {
 				sb.WriteString("-" + ch[i].Next)
 				if ch[i].Next == "takeover" {
@@ -870,7 +945,10 @@ func c16runChain(r *kit.Run, rng *rand.Rand, s c16Scn, first bool) {
 				continue
 			}
 			seen[sy.Family] = true
-			d := map[string]interface{}{"scenario": s, "history": full, "judged_connection": k, "judged": when, "steps": steps, "symptoms": symptoms}
+			d := map[string]interface{}{"scenario": s, "history": full, "judged_connection": k, "judged": when, "steps": steps, "symptoms": symptoms, "sessions_rebuilt_from_storage": restored}
+			if len(st.stuck) > 0 {
+				d["store_hand_overs_proven_stuck_for_ever(goroutine states)"] = st.stuck
+			}
 			if k >= 0 && conns[k] != nil {
 				d["judged_connection_log"] = conns[k].events()
 			}
@@ -881,7 +959,13 @@ func c16runChain(r *kit.Run, rng *rand.Rand, s c16Scn, first bool) {
 				if sigShape != "" {
 					shape = sigShape
 				}
-				r.Violation(fmt.Sprintf("session-chain:%s:%s", shape, sy.Family), d)
+				fam := sy.Family
+				if stuckSeen && (fam == "previous-subscription-not-restored" || fam == "unsubscribed-filter-back-after-reconnect") {
+					// the session the reconnect was restored from could not be up to date: hand-overs of
+					// an earlier connection of this history were proven stuck before that connection ended
+					fam += ":session-never-persisted-again(store-hand-over-stuck-for-ever)"
+				}
+				r.Violation(fmt.Sprintf("session-chain:%s:%s", shape, fam), d)
 			}
 		}
 	}
@@ -915,10 +999,26 @@ func c16runChain(r *kit.Run, rng *rand.Rand, s c16Scn, first bool) {
 			}
 		}
 		rb.flushDeletes()
-		rb.storesQuiesced()
+		st.settle()
 		relay.close()
 		rb.close()
 	}()
+	// settle: every hand-over to the storage has been written, or has been proven unable to
+	// complete ever (recorded; the history goes on and the reconnect is judged).  false = watchdog
+	settle := func(k int) bool {
+		nStuck, ok := st.settle()
+		if !ok {
+			inc("watchdog: session store")
+			return false
+		}
+		if nStuck > 0 {
+			stuckSeen = true
+			r.Count("store_hand_over_proven_stuck_for_ever", int64(nStuck))
+			r.Count("chain_store_hand_over_proven_stuck_for_ever_history_continued", 1)
+			step("#%d: %d Session.store() hand-over(s) can never complete (parked in a send on a channel the store loop does not read: %v); the stored copy is not judged any more, the history goes on", k, nStuck, st.stuck)
+		}
+		return true
+	}
 	seq := 0
 	inject := func(k int, tp string, qos int) (string, bool) {
 		seq++
@@ -947,9 +1047,12 @@ func c16runChain(r *kit.Run, rng *rand.Rand, s c16Scn, first bool) {
 		if cur < 0 || ch[cur].Clean {
 			return true
 		}
-		if !rb.storesQuiesced() {
-			inc("watchdog: session store")
+		if !settle(cur) {
 			return false
+		}
+		if stuckSeen {
+			// "every hand-over has finished" will never be true in this history
+			return true
 		}
 		tp, ok := rb.persistedTopics(cid)
 		for j := 0; j <= cur; j++ {
@@ -1058,6 +1161,11 @@ func c16runChain(r *kit.Run, rng *rand.Rand, s c16Scn, first bool) {
 					bad(famOf(j, k), "unrouted", map[string]interface{}{"filter": filt(j), "subscribed_by_connection": j})
 				}
 			}
+			if state[j] == unsubd && k > unsubAt[j] && allEarlierDown {
+				if ok, _ := rb.routes(topic(j), cid); ok {
+					bad("unsubscribed-filter-back-after-reconnect", "routed", map[string]interface{}{"filter": filt(j), "subscribed_by_connection": j, "unsubscribed_by_connection": unsubAt[j]})
+				}
+			}
 		}
 		if c.sawEOF() {
 			bad("current-connection-deregistered-or-disconnected", "connection-closed-by-broker", nil)
@@ -1098,6 +1206,24 @@ func c16runChain(r *kit.Run, rng *rand.Rand, s c16Scn, first bool) {
 							if j >= 1 && ch[j-1].Clean && !ch[j].Clean {
 								r.Count("chain_subscription_made_after_a_clean_predecessor_restored_at_next_persistent_reconnect", 1)
 							}
+							if restored[j] && restored[k] {
+								r.Count("chain_subscription_made_on_session_rebuilt_from_storage_restored_when_rebuilt_from_storage_again", 1)
+							}
+						}
+					case state[j] == unsubd && k == unsubAt[j] && got:
+						// UNSUBACK received and still delivered: not this property (topic manager); the filter is left open
+						r.Count("chain_unsubscribed_filter_still_delivered_to_the_unsubscribing_connection(not judged)", 1)
+						state[j] = open
+					case state[j] == unsubd && k == unsubAt[j]:
+						r.Count("chain_unsubscribed_filter_silent_for_the_unsubscribing_connection", 1)
+					case state[j] == unsubd && got && allEarlierDown:
+						bad("unsubscribed-filter-back-after-reconnect", "delivered", map[string]interface{}{"filter": filt(j), "subscribed_by_connection": j, "unsubscribed_by_connection": unsubAt[j], "payload": pls[j]})
+					case state[j] == unsubd && got:
+						r.Count("chain_unsubscribed_filter_delivered_while_an_earlier_connection_is_not_torn_down(not judged)", 1)
+					case state[j] == unsubd:
+						r.Count("chain_unsubscribed_filter_silent_after_persistent_reconnect", 1)
+						if restored[unsubAt[j]] && restored[k] {
+							r.Count("chain_filter_unsubscribed_on_session_rebuilt_from_storage_silent_when_rebuilt_from_storage_again", 1)
 						}
 					case state[j] == absent && got && allEarlierDown:
 						bad("discarded-subscription-still-delivered", "delivered", map[string]interface{}{"filter": filt(j), "subscribed_by_connection": j, "payload": pls[j]})
@@ -1134,6 +1260,13 @@ func c16runChain(r *kit.Run, rng *rand.Rand, s c16Scn, first bool) {
 
 	for k := 0; k < n; k++ {
 		jit()
+		if !ch[k].Clean && k > 0 && !ch[k-1].Clean && down[k-1] && rb.sessionInMap(cid) == nil {
+			if _, stored := rb.persistedTopics(cid); stored {
+				// no live session and the predecessor is gone: this CONNECT rebuilds the session from the stored copy
+				restored[k] = true
+				r.Count("chain_session_rebuilt_from_storage", 1)
+			}
+		}
 		c, l, err := relay.dial(cid)
 		if err != nil {
 			inc("dial: " + err.Error())
@@ -1161,7 +1294,7 @@ func c16runChain(r *kit.Run, rng *rand.Rand, s c16Scn, first bool) {
 				}
 			}
 		}
-		step("#%d: CONNECT clean=%v accepted", k, ch[k].Clean)
+		step("#%d: CONNECT clean=%v accepted (session rebuilt from the stored copy: %v)", k, ch[k].Clean, restored[k])
 		sup := k > 0 && ch[k-1].Next == "takeover"
 		if sup && ch[k-1].Point == 1 && !teardown(k-1, ch[k-1].End, true) {
 			return
@@ -1178,6 +1311,28 @@ func c16runChain(r *kit.Run, rng *rand.Rand, s c16Scn, first bool) {
 		step("#%d: SUBSCRIBE %s", k, filt(k))
 		if sup && ch[k-1].Point == 2 && !teardown(k-1, ch[k-1].End, true) {
 			return
+		}
+		if ch[k].Unsub {
+			for j := 0; j < k; j++ {
+				if state[j] != present {
+					continue
+				}
+				if ust := c16unsubscribe(c, []string{filt(j)}); ust == "watchdog" {
+					inc("watchdog: UNSUBACK")
+					return
+				} else if ust != "ok" {
+					bad("current-connection-deregistered-or-disconnected", "connection-closed-by-broker", map[string]interface{}{"at": "UNSUBSCRIBE", "state": ust})
+					emit(k, "UNSUBSCRIBE")
+					return
+				}
+				state[j], unsubAt[j] = unsubd, k
+				step("#%d: UNSUBSCRIBE %s (held since connection #%d)", k, filt(j), j)
+				r.Count("chain_inherited_filter_unsubscribed", 1)
+				if restored[k] {
+					r.Count("chain_session_rebuilt_from_storage_changed_by_subscribe_and_unsubscribe", 1)
+				}
+				break
+			}
 		}
 		if !judge(k, "established") {
 			return
@@ -1207,16 +1362,23 @@ func c16runChain(r *kit.Run, rng *rand.Rand, s c16Scn, first bool) {
 			break
 		}
 		// the connection ends (or is taken over) only after its session has been handed to storage
-		if !rb.storesQuiesced() {
-			inc("watchdog: session store")
+		// (a hand-over proven unable to complete ever is recorded and the history goes on: what the
+		// property says about it is judged at the next cleanSession=false reconnect)
+		if !settle(k) {
 			return
 		}
-		if !ch[k].Clean && ch[k].Next != "takeover" {
+		if !ch[k].Clean && ch[k].Next != "takeover" && !stuckSeen {
 			tp, ok := rb.persistedTopics(cid)
 			for j := 0; j <= k; j++ {
 				if state[j] == present && (!ok || tp[filt(j)] != 1) {
 					r.Count("persisted_copy_stale_after_all_stores_finished", 1)
 					bad("persisted-session-stale-after-all-stores-finished", "", map[string]interface{}{"persisted_topics": tp, "persisted_copy_exists": ok, "live_session_has": filt(j)})
+					emit(k, "before its end")
+					return
+				}
+				if _, still := tp[filt(j)]; state[j] == unsubd && ok && still {
+					r.Count("persisted_copy_stale_after_all_stores_finished", 1)
+					bad("persisted-session-stale-after-all-stores-finished", "unsubscribed-filter-still-stored", map[string]interface{}{"persisted_topics": tp, "live_session_dropped": filt(j), "unsubscribed_by_connection": unsubAt[j]})
 					emit(k, "before its end")
 					return
 				}
@@ -1244,4 +1406,195 @@ func c16runChain(r *kit.Run, rng *rand.Rand, s c16Scn, first bool) {
 	if first && n == 3 && ch[0].Clean && !ch[1].Clean && !ch[2].Clean && ch[0].Next == "takeover" && ch[1].Next == "drop" {
 		r.Sample(map[string]interface{}{"scenario": s, "steps": steps})
 	}
+}
+
+// ---------------------------------------------------------------------------- store hand-overs
+//
+// Every Session.store() hands the session to the session manager's store loop from a goroutine
+// of its own.  The monitor wants a quiescent point ("every hand-over of this history has been
+// written") before it ends a connection, but that wait must not depend on the code under test
+// making the very progress the property is about: a hand-over that can NEVER complete (its
+// goroutine sends on a channel the store loop does not read, e.g. a nil one) is a fact to be
+// recorded, after which the history goes on and the reconnect is judged as the property says.
+//
+// "can never complete" is decided logically, without any clock: blocked senders of a Go channel
+// are served in FIFO order.  If goroutine g (created by Session.store, which does exactly one
+// send) is seen parked in a channel send, and a barrier value that the harness sends AFTERWARDS
+// through the store loop's channel has been taken by the loop, then g, had it been waiting on
+// that channel, would have been served first.  g still parked in its send after the barrier is
+// therefore waiting on some other channel: no store loop will ever take its session.
+//
+// Goroutines created by Session.store that already existed when the case's broker was created
+// belong to earlier cases of this process and are ignored.
+
+type c16gor struct {
+	id    int64
+	state string
+}
+
+// c16storeGoroutines lists the live goroutines created by Session.store with their scheduler state.
+func c16storeGoroutines() []c16gor {
+	buf := make([]byte, 1<<20)
+	for {
+		n := runtime.Stack(buf, true)
+		if n < len(buf) {
+			buf = buf[:n]
+			break
+		}
+		buf = make([]byte, 2*len(buf))
+	}
+	var out []c16gor
+	for _, blk := range strings.Split(string(buf), "\n\n") {
+		lines := strings.Split(strings.TrimLeft(blk, "\n"), "\n")
+		mine := false
+		for _, l := range lines {
+			if strings.HasPrefix(l, "created by ") && strings.Contains(l, "(*Session).store") {
+				mine = true
+				break
+			}
+		}
+		if !mine || !strings.HasPrefix(lines[0], "goroutine ") {
+			continue
+		}
+		h := strings.TrimPrefix(lines[0], "goroutine ")
+		sp := strings.IndexByte(h, ' ')
+		lb, rb := strings.IndexByte(h, '['), strings.LastIndexByte(h, ']')
+		if sp < 0 || lb < 0 || rb < lb {
+			continue
+		}
+		id, err := strconv.ParseInt(h[:sp], 10, 64)
+		if err != nil {
+			continue
+		}
+		out = append(out, c16gor{id: id, state: h[lb+1 : rb]})
+	}
+	return out
+}
+
+// goroutine ids are never reused within a process: hand-overs proven stuck by an earlier case
+var c16stuckEver = struct {
+	sync.Mutex
+	ids map[int64]bool
+}{ids: map[int64]bool{}}
+
+type c16stores struct {
+	rb      *c15rigBroker
+	foreign map[int64]bool
+	stuck   []string // scheduler states of the hand-overs of this case proven stuck for ever
+}
+
+func c16newStores(rb *c15rigBroker) *c16stores {
+	st := &c16stores{rb: rb, foreign: map[int64]bool{}}
+	for _, g := range c16storeGoroutines() {
+		st.foreign[g.id] = true
+	}
+	return st
+}
+
+func (st *c16stores) live() []c16gor {
+	var out []c16gor
+	c16stuckEver.Lock()
+	defer c16stuckEver.Unlock()
+	for _, g := range c16storeGoroutines() {
+		if !st.foreign[g.id] && !c16stuckEver.ids[g.id] {
+			out = append(out, g)
+		}
+	}
+	return out
+}
+
+// barrier: two values through the store loop's channel; the loop is sequential, so when the
+// second one has been taken the put of everything handed over before the first one is done.
+func (st *c16stores) barrier() bool {
+	t := time.NewTimer(c15rigWatchdog)
+	defer t.Stop()
+	for i := 0; i < 2; i++ {
+		select {
+		case st.rb.b.sessMgr.storeCh <- SessionStore{key: "c15rig-barrier", value: ""}:
+		case <-st.rb.b.sessMgr.done:
+			return false
+		case <-t.C:
+			return false
+		}
+	}
+	return true
+}
+
+// settle waits until every Session.store() hand-over of this case has either been written by the
+// store loop or has been proven unable to complete ever.  stuck = number of hand-overs newly
+// proven stuck by this call; ok=false = watchdog (a hand-over neither finished nor parked, or
+// the store loop does not take the barrier).
+func (st *c16stores) settle() (stuck int, ok bool) {
+	deadline := time.Now().Add(c15rigWatchdog)
+	for i := 0; ; i++ {
+		gs := st.live()
+		if len(gs) == 0 {
+			return stuck, st.barrier()
+		}
+		var parked []int64
+		for _, g := range gs {
+			if strings.HasPrefix(g.state, "chan send") {
+				parked = append(parked, g.id)
+			}
+		}
+		if len(parked) > 0 {
+			if !st.barrier() {
+				return stuck, false
+			}
+			after := map[int64]string{}
+			for _, g := range st.live() {
+				after[g.id] = g.state
+			}
+			c16stuckEver.Lock()
+			for _, id := range parked {
+				if state, still := after[id]; still && strings.HasPrefix(state, "chan send") {
+					c16stuckEver.ids[id] = true
+					st.stuck = append(st.stuck, state)
+					stuck++
+				}
+			}
+			c16stuckEver.Unlock()
+			continue
+		}
+		if time.Now().After(deadline) {
+			return stuck, false
+		}
+		if i < 20 {
+			runtime.Gosched()
+			time.Sleep(200 * time.Microsecond)
+		} else {
+			time.Sleep(2 * time.Millisecond)
+		}
+	}
+}
+
+// c16unsubscribe sends one UNSUBSCRIBE and waits for its UNSUBACK.
+func c16unsubscribe(c *c15rigClient, filters []string) string {
+	p := packets.NewControlPacket(packets.Unsubscribe).(*packets.UnsubscribePacket)
+	c.wmu.Lock()
+	id := c.nextID
+	c.nextID++
+	c.wmu.Unlock()
+	p.MessageID = id
+	p.Topics = append([]string(nil), filters...)
+	if err := c.write(p); err != nil {
+		return "write:" + err.Error()
+	}
+	got := false
+	ok := c.waitFor(func(ev []c15rigEvt, eof bool) bool {
+		for _, e := range ev {
+			if e.Type == packets.Unsuback && e.MsgID == id {
+				got = true
+				return true
+			}
+		}
+		return eof
+	}, c15rigWatchdog)
+	switch {
+	case got:
+		return "ok"
+	case ok:
+		return "eof"
+	}
+	return "watchdog"
 }
